@@ -35,6 +35,7 @@ type poolEntry struct {
 
 type opRecord struct {
 	ns   map[string]string // this operation's prefix bindings (nil: the default ones)
+	nofn map[string]bool   // user functions NOT bound in this operation
 	desc string
 	req  world.ExecReq
 	vars map[string]int // node-set variable -> held index
@@ -190,6 +191,15 @@ func (s *session) exec(rec opRecord, repeatOf int) {
 	if rec.ns != nil {
 		b.NS = rec.ns
 	}
+	if len(rec.nofn) > 0 {
+		var keep []world.FuncSpec
+		for _, f := range b.Funcs {
+			if !rec.nofn[f.Name] {
+				keep = append(keep, f)
+			}
+		}
+		b.Funcs = keep
+	}
 	if rec.own {
 		for k := range s.ownNS {
 			delete(s.ownNS, k)
@@ -268,6 +278,18 @@ func (s *session) exec(rec opRecord, repeatOf int) {
 	}
 	if got.Mutated != "" {
 		s.violate("I1-binding-maps-changed", "binding-maps-changed", "after %s: %s", rec.desc, got.Mutated)
+	}
+	if s.t.Bool(1, 3) {
+		// The isolated world shares nothing with the history except the process:
+		// if the same isolated evaluation differs before and after the call,
+		// the call changed package-level state.
+		iso2, _ := world.NewWorld(s.specs)
+		again := world.Eval(iso2, rec.req, nil)
+		s.o.Evals++
+		s.o.Probe("isolated-evaluation-repeated-after-the-call")
+		if again.Key(iso2) != want.Key(iso) {
+			s.violate("I2-history-dependence", "hidden-global-state", "%s: the same query in a fresh isolated world returned %s before this call and %s after it: the call changed process-wide state", rec.desc, want.Show(iso), again.Show(iso2))
+		}
 	}
 	if got.Key(s.w) != want.Key(iso) {
 		s.violate("I2-history-dependence", "history-dependence", "%s returned %s in this history but %s in a fresh isolated world (same documents, expression string, bindings, context node)", rec.desc, got.Show(s.w), want.Show(iso))
@@ -409,7 +431,7 @@ func Run(t *simkit.Tape, o *simkit.Outcome, full bool) {
 
 	// seed the pool and the held results with shapes that produce reverse order
 	// and spare capacity
-	seedExprs := []string{"//*", "//*/ancestor::*", "//node()/preceding-sibling::node()", "//@*", "/*/*", "//text()", "//*[last()]/ancestor-or-self::*", "//*/preceding::*", "//*/namespace::*", "/"}
+	seedExprs := []string{"//*/@*", "/*/@*", "/*/*/@*", "//*[1]/@*", "//.", "//self::node()", "/*//.", "//*", "//*/ancestor::*", "//node()/preceding-sibling::node()", "//@*", "/*/*", "//text()", "//*[last()]/ancestor-or-self::*", "//*/preceding::*", "//*/namespace::*", "/"}
 	nSeed := 1 + t.Draw(3)
 	for i := 0; i < nSeed; i++ {
 		str := seedExprs[t.Draw(len(seedExprs))]
@@ -421,7 +443,16 @@ func Run(t *simkit.Tape, o *simkit.Outcome, full bool) {
 	nf := t.Pick(2, 3, 2)
 	kinds := []string{"reenter", "held", "fail", "panic", "const", "echo"}
 	for i := 0; i < nf; i++ {
-		f := world.FuncSpec{Name: []string{"f", "g", "h"}[i], Kind: kinds[t.Pick(4, 3, 2, 2, 1, 1)], At: t.Draw(3), Arity: t.Draw(2)}
+		fname := []string{"f", "g", "h"}[i]
+		if t.Bool(1, 4) {
+			fname = []string{"string-length", "count", "not", "name", "concat"}[t.Draw(5)] // shadows a builtin
+			for _, o := range s.bind.Funcs {
+				if o.Name == fname {
+					fname = []string{"f", "g", "h"}[i]
+				}
+			}
+		}
+		f := world.FuncSpec{Name: fname, Kind: kinds[t.Pick(4, 3, 2, 2, 1, 1)], At: t.Draw(3), Arity: t.Draw(2)}
 		f.Const = world.Value{Type: "number", Num: 1}
 		f.Ret = model.TNum
 		switch f.Kind {
@@ -499,8 +530,19 @@ func Run(t *simkit.Tape, o *simkit.Outcome, full bool) {
 			if ns != nil {
 				s.o.Probe("query-with-rebound-prefixes")
 			}
+			var nofn map[string]bool
+			if len(s.bind.Funcs) > 0 && t.Bool(1, 3) {
+				nofn = map[string]bool{}
+				for _, f := range s.bind.Funcs {
+					if t.Bool(1, 2) {
+						nofn[f.Name] = true
+						nsDesc += ", " + f.Name + "() unbound"
+					}
+				}
+				s.o.Probe("query-with-functions-unbound")
+			}
 			desc := fmt.Sprintf("Exec(%s, e%d%s%s%s)", s.w.PathOf(ctx), pi, map[bool]string{true: ", caller-owned maps", false: ""}[own], nsDesc, prefixIf(", ", varDesc(s, vars)))
-			s.exec(opRecord{desc: desc, req: world.ExecReq{Expr: s.pool[pi].Str, Ctx: ctx}, vars: vars, own: own, ns: ns}, -1)
+			s.exec(opRecord{desc: desc, req: world.ExecReq{Expr: s.pool[pi].Str, Ctx: ctx}, vars: vars, own: own, ns: ns, nofn: nofn}, -1)
 		case 2: // query whose result slice the caller keeps
 			var cands []int
 			for i, p := range s.pool {
